@@ -1,8 +1,15 @@
 #!/bin/sh
-# tools/seed_matrix.sh [tier] [parallel] : run every seeded change against the check of its own property, each in its
-# own scratch worktree of /repo (never touches /repo itself); writes /verif/seeded/RESULTS_<tier>.txt
-tier="${1:-quick}"; par="${2:-4}"
+# tools/seed_matrix.sh [tier] [parallel] [property ids...] : run every seeded change (or only those of the given
+# properties) against the check of its own property, each in its own scratch worktree of /repo (never touches /repo
+# itself); writes /verif/seeded/RESULTS_<tier>.txt (with a property filter: merges into the existing file).
+# Do not run it next to thorough tiers or vp check on the same machine: an 8-wide matrix needs the 16 cores.
+tier="${1:-quick}"; par="${2:-4}"; [ $# -ge 2 ] && shift 2 || shift $#
 out=/verif/seeded/RESULTS_$tier.txt
-ls -d /verif/seeded/C*_* | xargs -n1 basename | xargs -P "$par" -I{} sh -c 'n={}; /verif/tools/seed_one.sh "$n" '"$tier"' "${n%_*}"' > "$out.tmp" 2>&1
+if [ $# -gt 0 ]; then sel=$(for p in "$@"; do ls -d /verif/seeded/${p}_*; done); else sel=$(ls -d /verif/seeded/C*_*); fi
+echo "$sel" | xargs -n1 basename | xargs -P "$par" -I{} sh -c 'n={}; /verif/tools/seed_one.sh "$n" '"$tier"' "${n%_*}"' > "$out.tmp" 2>&1
+if [ $# -gt 0 ] && [ -f "$out" ]; then
+  pat=$(echo "$@" | sed 's/ /|/g')
+  grep -Ev "^($pat)_" "$out" >> "$out.tmp"
+fi
 sort "$out.tmp" | grep -v "^WARNING" > "$out"; rm -f "$out.tmp"
 echo "caught: $(grep -c 'rc=1' $out) of $(ls -d /verif/seeded/C*_* | wc -l)"; grep -v "rc=1" "$out"
